@@ -1,0 +1,4 @@
+// Package verifhooks holds hooks for the external verification harness. They
+// are compiled only with the build tag "verif"; without it the package is
+// empty.
+package verifhooks
